@@ -3,13 +3,15 @@
    `check`  : the model (Model/StrFns.v, Model/CollFns.v) reproduces every output;
    `oracle` : the property's laws judged on the implementation's outputs alone (written with different
               primitives than the model: index arithmetic, firstn/skipn, explicit membership). *)
-From Coq Require Import List NArith ZArith Bool String.
+From Coq Require Import List NArith ZArith Bool.
 From VRL Require Import Base.Bytes Base.Value Base.Lit Model.CodecUtf8 Model.CaseTables Model.StrFns Model.CollFns.
 Import ListNotations.
-Local Open Scope string_scope.
+
+Inductive opk := OUpcase | ODowncase | OCasing | OStrip | OSplit | OJoin | OStartsWith | OEndsWith | OContains
+| OTruncate | OStrlen | OSlice | OUnique | OCompact | OKvl | OLength | OMerge | OPush | OAppend | OFlatten | OChunks.
 
 Inductive case :=
-| CRun (op : string) (args : list value) (outs : list res)
+| CRun (op : opk) (args : list value) (outs : list res)
 | CWs (lo hi : N) (ws : list N)
 | CCaseSweep (lo hi : N) (bad_up bad_down bad_up_pt bad_down_pt : list N)
 | CCaseTab (tab : list (N * list N * list N * bool * bool)).
@@ -51,74 +53,124 @@ Definition guard_domain (vs : list value) (r : res) : res :=
 
 Definition dc (v : value) : res := guard_domain [v] (on_bytes v (fun s => bres (downcase s))).
 
-Definition model_run (op : string) (args : list value) : list res :=
-  match op, args with
-  | "upcase", [a] =>
-      [guard_domain [a] (on_bytes a (fun s => bres (upcase s)));
-       guard_domain [a] (on_bytes a (fun s => bres (upcase (upcase s))))]
-  | "downcase", [a] =>
-      [dc a; guard_domain [a] (on_bytes a (fun s => bres (downcase (downcase s))))]
-  | "casing", [a] =>
-      match a with
-      | VBytes _ => repeat RUnmodelled 10       (* convert_case crate: not modelled; laws judged by the oracle *)
-      | _ => repeat RErr 10
+Definition model_run (op : opk) (args : list value) : list res :=
+  match op with
+  | OUpcase =>
+      match args with
+      | [a] => [guard_domain [a] (on_bytes a (fun s => bres (upcase s)));
+                guard_domain [a] (on_bytes a (fun s => bres (upcase (upcase s))))]
+      | _ => []
       end
-  | "strip", [a] =>
-      [on_bytes a (fun s => bres (strip_ws s)); on_bytes a (fun s => bres (strip_ws (strip_ws s)))]
-  | "split", [s; d] =>
-      let r := fn_split s d (VInt default_split_limit) in
-      [r; match r with
-          | ROk (VArr l) => fn_join (VArr l) (Some d)
-          | r => r
-          end]
-  | "split", [s; d; n] =>
-      let r := fn_split s d n in
-      [r; match r with
-          | ROk (VArr l) => fn_join (VArr l) (Some d)
-          | r => r
-          end]
-  | "join", [a] => [fn_join a None]
-  | "join", [a; d] => [fn_join a (Some d)]
-  | "starts_with", [s; p] =>
-      [fn_starts_with s p true; guard_domain [s; p] (fn_starts_with s p false); dc s; dc p]
-  | "ends_with", [s; p] =>
-      [fn_ends_with s p true; guard_domain [s; p] (fn_ends_with s p false); dc s; dc p]
-  | "contains", [s; p] =>
-      [fn_contains s p true; guard_domain [s; p] (fn_contains s p false); dc s; dc p]
-  | "truncate", [s; n] =>
-      let r := fn_truncate s n (VBytes []) in
-      [r; match r with ROk (VBytes t) => ROk (VInt (strlen t)) | r => r end;
-       on_bytes s (fun b => ROk (VInt (strlen b)))]
-  | "truncate", [s; n; x] =>
-      let r := fn_truncate s n x in
-      [r; match r with ROk (VBytes t) => ROk (VInt (strlen t)) | r => r end;
-       on_bytes s (fun b => ROk (VInt (strlen b)));
-       on_bytes x (fun b => ROk (VInt (strlen b)))]
-  | "strlen", [s; _] =>
-      [on_bytes s (fun b => ROk (VInt (strlen b))); fn_length s]
-  | "slice", [v; s] => [fn_slice v s None]
-  | "slice", [v; s; e] => [fn_slice v s (Some e)]
-  | "unique", [a] =>
-      let r := fn_unique a in [r; match r with ROk u => fn_unique u | r => r end]
-  | "compact", [v] =>
-      let r := fn_compact v None in [r; match r with ROk u => fn_compact u None | r => r end]
-  | "compact", v :: flags =>
-      let r := fn_compact v (Some flags) in
-      [r; match r with ROk u => fn_compact u (Some flags) | r => r end]
-  | "kvl", [o] =>
-      let l := match o with VObj _ => fn_length o | _ => RErr end in
-      [fn_keys o; fn_values o; fn_length o; l; l]
-  | "length", [v] => [fn_length v]
-  | "merge", [a; b] => [fn_merge a b None]
-  | "merge", [a; b; d] => [fn_merge a b (Some d)]
-  | "push", [a; x] =>
-      let r := fn_push a x in [r; match r with ROk u => fn_length u | r => r end]
-  | "append", [a; b] =>
-      let r := fn_append a b in [r; match r with ROk u => fn_length u | r => r end]
-  | "flatten", [a] =>
-      let r := fn_flatten a in [r; match r with ROk u => fn_flatten u | r => r end]
-  | "chunks", [v; n] => [fn_chunks v n]
-  | _, _ => []
+  | ODowncase =>
+      match args with
+      | [a] => [dc a; guard_domain [a] (on_bytes a (fun s => bres (downcase (downcase s))))]
+      | _ => []
+      end
+  | OCasing =>
+      match args with
+      | [VBytes _] => repeat RUnmodelled 10     (* convert_case crate: not modelled; laws judged by the oracle *)
+      | [_] => repeat RErr 10
+      | _ => []
+      end
+  | OStrip =>
+      match args with
+      | [a] => [on_bytes a (fun s => bres (strip_ws s)); on_bytes a (fun s => bres (strip_ws (strip_ws s)))]
+      | _ => []
+      end
+  | OSplit =>
+      let go s d n :=
+        let r := fn_split s d n in
+        [r; match r with ROk (VArr l) => fn_join (VArr l) (Some d) | r => r end] in
+      match args with
+      | [s; d] => go s d (VInt default_split_limit)
+      | [s; d; n] => go s d n
+      | _ => []
+      end
+  | OJoin =>
+      match args with
+      | [a] => [fn_join a None]
+      | [a; d] => [fn_join a (Some d)]
+      | _ => []
+      end
+  | OStartsWith =>
+      match args with
+      | [s; p] => [fn_starts_with s p true; guard_domain [s; p] (fn_starts_with s p false); dc s; dc p]
+      | _ => []
+      end
+  | OEndsWith =>
+      match args with
+      | [s; p] => [fn_ends_with s p true; guard_domain [s; p] (fn_ends_with s p false); dc s; dc p]
+      | _ => []
+      end
+  | OContains =>
+      match args with
+      | [s; p] => [fn_contains s p true; guard_domain [s; p] (fn_contains s p false); dc s; dc p]
+      | _ => []
+      end
+  | OTruncate =>
+      let lenr r := match r with ROk (VBytes t) => ROk (VInt (strlen t)) | r => r end in
+      match args with
+      | [s; n] =>
+          let r := fn_truncate s n (VBytes []) in
+          [r; lenr r; match r with RErr => RErr | _ => on_bytes s (fun b => ROk (VInt (strlen b))) end]
+      | [s; n; x] =>
+          let r := fn_truncate s n x in
+          [r; lenr r; on_bytes s (fun b => ROk (VInt (strlen b))); on_bytes x (fun b => ROk (VInt (strlen b)))]
+      | _ => []
+      end
+  | OStrlen =>
+      match args with
+      | [s; _] => [on_bytes s (fun b => ROk (VInt (strlen b))); fn_length s]
+      | _ => []
+      end
+  | OSlice =>
+      match args with
+      | [v; s] => [fn_slice v s None]
+      | [v; s; e] => [fn_slice v s (Some e)]
+      | _ => []
+      end
+  | OUnique =>
+      match args with
+      | [a] => let r := fn_unique a in [r; match r with ROk u => fn_unique u | r => r end]
+      | _ => []
+      end
+  | OCompact =>
+      match args with
+      | [v] => let r := fn_compact v None in [r; match r with ROk u => fn_compact u None | r => r end]
+      | v :: flags =>
+          let r := fn_compact v (Some flags) in
+          [r; match r with ROk u => fn_compact u (Some flags) | r => r end]
+      | _ => []
+      end
+  | OKvl =>
+      match args with
+      | [o] => let l := match o with VObj _ => fn_length o | _ => RErr end in
+               [fn_keys o; fn_values o; fn_length o; l; l]
+      | _ => []
+      end
+  | OLength => match args with [v] => [fn_length v] | _ => [] end
+  | OMerge =>
+      match args with
+      | [a; b] => [fn_merge a b None]
+      | [a; b; d] => [fn_merge a b (Some d)]
+      | _ => []
+      end
+  | OPush =>
+      match args with
+      | [a; x] => let r := fn_push a x in [r; match r with ROk u => fn_length u | r => r end]
+      | _ => []
+      end
+  | OAppend =>
+      match args with
+      | [a; b] => let r := fn_append a b in [r; match r with ROk u => fn_length u | r => r end]
+      | _ => []
+      end
+  | OFlatten =>
+      match args with
+      | [a] => let r := fn_flatten a in [r; match r with ROk u => fn_flatten u | r => r end]
+      | _ => []
+      end
+  | OChunks => match args with [v; n] => [fn_chunks v n] | _ => [] end
   end.
 
 (* ---------- sweeps ---------- *)
@@ -198,24 +250,24 @@ Definition all_vbytes (l : list value) : option (list bytes) :=
 Definition bytes_arg (v : value) : option bytes := match v with VBytes b => Some b | _ => None end.
 
 (* search functions: outs = [case sensitive; case insensitive; downcase s; downcase p] *)
-Definition search_law (kind : string) (s p : bytes) (outs : list res) : bool :=
+Definition search_law (kind : opk) (s p : bytes) (outs : list res) : bool :=
   match outs with
   | [rcs; rci; rds; rdp] =>
       match ok_bool rcs, ok_bool rci, ok_bytes rds, ok_bytes rdp with
       | Some cs, Some ci, Some ds, Some dp =>
-          let law := if kind =? "starts_with" then prefix_law
-                     else if kind =? "ends_with" then suffix_law else infix_law in
+          let is_sw := match kind with OStartsWith => true | _ => false end in
+          let law := match kind with OStartsWith => prefix_law | OEndsWith => suffix_law | _ => infix_law end in
+          let valid := if is_sw then valid_utf8 s && valid_utf8 p else true in
           (* agrees with substring position (starts_with compares raw bytes, the others the lossy strings) *)
-          Bool.eqb cs (if kind =? "starts_with" then law p s else law (utf8_lossy p) (utf8_lossy s))
+          Bool.eqb cs (if is_sw then law p s else law (utf8_lossy p) (utf8_lossy s))
           (* a case-sensitive match is a case-insensitive match *)
-          && (if kind =? "starts_with" then valid_utf8 s && valid_utf8 p else true) ==> (cs ==> ci)
+          && implb valid (implb cs ci)
           (* case-insensitive = the same predicate on the lowercased strings *)
-          && ((if kind =? "starts_with" then valid_utf8 s && valid_utf8 p else true) ==> Bool.eqb ci (law dp ds))
+          && implb valid (Bool.eqb ci (law dp ds))
       | _, _, _, _ => false
       end
   | _ => false
-  end
-where "a ==> b" := (implb a b).
+  end.
 
 Fixpoint sum_len (l : list bytes) : nat := match l with [] => O | x :: r => (length x + sum_len r)%nat end.
 
@@ -325,7 +377,7 @@ Definition unique_law (l r : list value) : bool :=
 
 (* compact: (a) nothing configured-empty is left, (b) the result is obtained by deleting items (and, when
    recursive, compacting inside the kept containers), (c) every deleted item is one that is configured-empty
-   itself or (recursive only) a container *)
+   itself or (recursive only) a container that compacts to a configured-empty one *)
 Fixpoint compact_rel (fuel : nat) (o : compact_opts) (v r : value) {struct fuel} : bool :=
   match fuel with
   | O => false
@@ -336,7 +388,13 @@ Fixpoint compact_rel (fuel : nat) (o : compact_opts) (v r : value) {struct fuel}
             then match x with VArr _ | VObj _ => compact_rel f o x y | _ => value_eqb x y end
             else value_eqb x y) in
       let droppable (x : value) : bool :=
-        is_empty_for o x || (co_recursive o && match x with VArr _ | VObj _ => true | _ => false end) in
+        is_empty_for o x
+        || (co_recursive o
+            && match x with
+               | VArr _ => is_empty_for o (VArr []) && compact_rel f o x (VArr [])
+               | VObj _ => is_empty_for o (VObj []) && compact_rel f o x (VObj [])
+               | _ => false
+               end) in
       match v, r with
       | VArr l, VArr m =>
           (fix go (l m : list value) {struct l} : bool :=
@@ -418,89 +476,161 @@ Definition chunks_law (b : bytes) (n : Z) (l : list value) : bool :=
   | None => false
   end.
 
-Definition oracle_run (op : string) (args : list value) (outs : list res) : bool :=
-  match op, args, outs with
-  | "upcase", [VBytes _], [r0; r1] | "downcase", [VBytes _], [r0; r1] =>
-      match ok_bytes r0 with Some _ => strict_res_eqb r0 r1 | None => false end
-  | "casing", [VBytes _], _ => Nat.eqb (length outs) 10 && pairs_equal outs
-  | "strip", [VBytes s], [r0; r1] =>
-      match ok_bytes r0 with Some r => strip_law s r && strict_res_eqb r0 r1 | None => false end
-  | "split", [VBytes s; VBytes d], _ => split_law s d None outs
-  | "split", [VBytes s; VBytes d; VInt n], _ => split_law s d (Some n) outs
-  | "join", [VArr l], [r] => join_law l [] r
-  | "join", [VArr l; VBytes d], [r] => join_law l d r
-  | "starts_with", [VBytes s; VBytes p], _ => search_law "starts_with" s p outs
-  | "ends_with", [VBytes s; VBytes p], _ => search_law "ends_with" s p outs
-  | "contains", [VBytes s; VBytes p], _ => search_law "contains" s p outs
-  | "truncate", [VBytes s; VInt n], [r; lr; ls] =>
-      match ok_bytes r, ok_int lr, ok_int ls with
-      | Some r, Some lr, Some ls => truncate_law s n [] r lr ls 0
-      | _, _, _ => false
+Definition some_or_err {A} (r : res) (o : option A) : bool :=
+  is_err r || match o with Some _ => true | None => false end.
+
+Definition oracle_run (op : opk) (args : list value) (outs : list res) : bool :=
+  match op with
+  | OUpcase | ODowncase =>
+      match args, outs with
+      | [VBytes _], [r0; r1] => match ok_bytes r0 with Some _ => strict_res_eqb r0 r1 | None => false end
+      | _, _ => true
       end
-  | "truncate", [VBytes s; VInt n; VBytes x], [r; lr; ls; lx] =>
-      match ok_bytes r, ok_int lr, ok_int ls, ok_int lx with
-      | Some r, Some lr, Some ls, Some lx => truncate_law s n x r lr ls lx
-      | _, _, _, _ => false
+  | OCasing =>
+      match args with
+      | [VBytes _] => Nat.eqb (length outs) 10 && pairs_equal outs
+      | _ => true
       end
-  | "strlen", [VBytes s; cps], [r; _] =>
-      match ok_int r with Some n => strlen_law s cps n | None => false end
-  | "slice", [VBytes b; VInt s], [r] =>
-      slice_law N.eqb b s None (ok_bytes r) && (is_err r || match ok_bytes r with Some _ => true | None => false end)
-  | "slice", [VBytes b; VInt s; VInt e], [r] =>
-      slice_law N.eqb b s (Some e) (ok_bytes r) && (is_err r || match ok_bytes r with Some _ => true | None => false end)
-  | "slice", [VArr a; VInt s], [r] =>
-      slice_law value_eqb a s None (ok_arr r) && (is_err r || match ok_arr r with Some _ => true | None => false end)
-  | "slice", [VArr a; VInt s; VInt e], [r] =>
-      slice_law value_eqb a s (Some e) (ok_arr r) && (is_err r || match ok_arr r with Some _ => true | None => false end)
-  | "unique", [VArr l], [r0; r1] =>
-      match ok_arr r0 with Some r => unique_law l r && strict_res_eqb r0 r1 | None => false end
-  | "compact", v :: flags, [r0; r1] =>
-      match flags_of flags, v with
-      | Some o, (VArr _ | VObj _) =>
-          match r0 with
-          | ROk r => compact_rel (S (depth v)) o v r && strict_res_eqb r0 r1
-          | _ => false
+  | OStrip =>
+      match args, outs with
+      | [VBytes s], [r0; r1] =>
+          match ok_bytes r0 with Some r => strip_law s r && strict_res_eqb r0 r1 | None => false end
+      | _, _ => true
+      end
+  | OSplit =>
+      match args with
+      | [VBytes s; VBytes d] => split_law s d None outs
+      | [VBytes s; VBytes d; VInt n] => split_law s d (Some n) outs
+      | _ => true
+      end
+  | OJoin =>
+      match args, outs with
+      | [VArr l], [r] => join_law l [] r
+      | [VArr l; VBytes d], [r] => join_law l d r
+      | _, _ => true
+      end
+  | OStartsWith | OEndsWith | OContains =>
+      match args with
+      | [VBytes s; VBytes p] => search_law op s p outs
+      | _ => true
+      end
+  | OTruncate =>
+      match args, outs with
+      | [VBytes s; VInt n], [r; lr; ls] =>
+          match ok_bytes r, ok_int lr, ok_int ls with
+          | Some r, Some lr, Some ls => truncate_law s n [] r lr ls 0
+          | _, _, _ => false
           end
-      | _, _ => is_err r0
+      | [VBytes s; VInt n; VBytes x], [r; lr; ls; lx] =>
+          match ok_bytes r, ok_int lr, ok_int ls, ok_int lx with
+          | Some r, Some lr, Some ls, Some lx => truncate_law s n x r lr ls lx
+          | _, _, _, _ => false
+          end
+      | _, _ => true
       end
-  | "kvl", [VObj m], [ks; vs; n; nk; nv] =>
-      strict_res_eqb ks (ROk (VArr (map (fun kv => VBytes (fst kv)) m)))
-      && strict_res_eqb vs (ROk (VArr (map snd m)))
-      && strict_res_eqb n (ROk (VInt (Z.of_nat (length m))))
-      && strict_res_eqb n nk && strict_res_eqb n nv
-      && match ok_arr ks with
-         | Some l => match all_vbytes l with
-                     | Some kb => obj_sorted (map (fun k => (k, VNull)) kb)
-                     | None => false
-                     end
-         | None => false
-         end
-  | "merge", [VObj a; VObj b], [r] =>
-      match ok_obj r with Some m => merge_law 1 false a b m | None => false end
-  | "merge", [VObj a; VObj b; VBool d], [r] =>
-      match ok_obj r with Some m => merge_law (S (Nat.max (depth (VObj a)) (depth (VObj b)))) d a b m | None => false end
-  | "push", [VArr a; x], [r; n] =>
-      match ok_arr r with
-      | Some l => value_eqb (VArr (removelast l)) (VArr a) && opt_value_eqb (nth_error l (length a)) (Some x)
-                  && strict_res_eqb n (ROk (VInt (Z.of_nat (S (length a)))))
-      | None => false
+  | OStrlen =>
+      match args, outs with
+      | [VBytes s; cps], [r; _] => match ok_int r with Some n => strlen_law s cps n | None => false end
+      | _, _ => true
       end
-  | "append", [VArr a; VArr b], [r; n] =>
-      match ok_arr r with
-      | Some l => value_eqb (VArr (firstn (length a) l)) (VArr a) && value_eqb (VArr (skipn (length a) l)) (VArr b)
-                  && strict_res_eqb n (ROk (VInt (Z.of_nat (length a + length b))))
-      | None => false
+  | OSlice =>
+      match args, outs with
+      | [VBytes b; VInt s], [r] => slice_law N.eqb b s None (ok_bytes r) && some_or_err r (ok_bytes r)
+      | [VBytes b; VInt s; VInt e], [r] => slice_law N.eqb b s (Some e) (ok_bytes r) && some_or_err r (ok_bytes r)
+      | [VArr a; VInt s], [r] => slice_law value_eqb a s None (ok_arr r) && some_or_err r (ok_arr r)
+      | [VArr a; VInt s; VInt e], [r] => slice_law value_eqb a s (Some e) (ok_arr r) && some_or_err r (ok_arr r)
+      | _, _ => true
       end
-  | "flatten", [VArr a], [r0; r1] =>
-      match ok_arr r0 with
-      | Some l => no_arrays l && strict_res_eqb r0 r1
-                  && Nat.eqb (length l) (count_leaves (S (depth (VArr a))) (VArr a))
-      | None => false
+  | OUnique =>
+      match args, outs with
+      | [VArr l], [r0; r1] =>
+          match ok_arr r0 with Some r => unique_law l r && strict_res_eqb r0 r1 | None => false end
+      | _, _ => true
       end
-  | "chunks", [VBytes b; VInt n], [r] =>
-      if Z.ltb n 1 then is_err r
-      else match ok_arr r with Some l => chunks_law b n l | None => false end
-  | _, _, _ => true       (* ill-typed arguments: only the correspondence speaks (error vs error) *)
+  | OCompact =>
+      match args, outs with
+      | v :: flags, [r0; r1] =>
+          match flags_of flags, v with
+          | Some o, (VArr _ | VObj _) =>
+              match r0 with
+              | ROk r => compact_rel (S (depth v)) o v r && strict_res_eqb r0 r1
+              | _ => false
+              end
+          | _, _ => is_err r0
+          end
+      | _, _ => true
+      end
+  | OKvl =>
+      match args, outs with
+      | [VObj m], [ks; vs; n; nk; nv] =>
+          strict_res_eqb ks (ROk (VArr (map (fun kv => VBytes (fst kv)) m)))
+          && strict_res_eqb vs (ROk (VArr (map snd m)))
+          && strict_res_eqb n (ROk (VInt (Z.of_nat (length m))))
+          && strict_res_eqb n nk && strict_res_eqb n nv
+          && match ok_arr ks with
+             | Some l => match all_vbytes l with
+                         | Some kb => obj_sorted (map (fun k => (k, VNull)) kb)
+                         | None => false
+                         end
+             | None => false
+             end
+      | _, _ => true
+      end
+  | OLength =>
+      match args, outs with
+      | [VArr a], [r] => strict_res_eqb r (ROk (VInt (Z.of_nat (length a))))
+      | [VObj a], [r] => strict_res_eqb r (ROk (VInt (Z.of_nat (length a))))
+      | [VBytes a], [r] => strict_res_eqb r (ROk (VInt (Z.of_nat (length a))))
+      | _, _ => true
+      end
+  | OMerge =>
+      match args, outs with
+      | [VObj a; VObj b], [r] => match ok_obj r with Some m => merge_law 1 false a b m | None => false end
+      | [VObj a; VObj b; VBool d], [r] =>
+          match ok_obj r with
+          | Some m => merge_law (S (Nat.max (depth (VObj a)) (depth (VObj b)))) d a b m
+          | None => false
+          end
+      | _, _ => true
+      end
+  | OPush =>
+      match args, outs with
+      | [VArr a; x], [r; n] =>
+          match ok_arr r with
+          | Some l => value_eqb (VArr (removelast l)) (VArr a) && opt_value_eqb (nth_error l (length a)) (Some x)
+                      && strict_res_eqb n (ROk (VInt (Z.of_nat (S (length a)))))
+          | None => false
+          end
+      | _, _ => true
+      end
+  | OAppend =>
+      match args, outs with
+      | [VArr a; VArr b], [r; n] =>
+          match ok_arr r with
+          | Some l => value_eqb (VArr (firstn (length a) l)) (VArr a)
+                      && value_eqb (VArr (skipn (length a) l)) (VArr b)
+                      && strict_res_eqb n (ROk (VInt (Z.of_nat (length a + length b))))
+          | None => false
+          end
+      | _, _ => true
+      end
+  | OFlatten =>
+      match args, outs with
+      | [VArr a], [r0; r1] =>
+          match ok_arr r0 with
+          | Some l => no_arrays l && strict_res_eqb r0 r1
+                      && Nat.eqb (length l) (count_leaves (S (depth (VArr a))) (VArr a))
+          | None => false
+          end
+      | _, _ => true
+      end
+  | OChunks =>
+      match args, outs with
+      | [VBytes b; VInt n], [r] =>
+          if Z.ltb n 1 then is_err r
+          else match ok_arr r with Some l => chunks_law b n l | None => false end
+      | _, _ => true
+      end
   end.
 
 Definition oracle (c : case) : bool :=
